@@ -20,6 +20,8 @@ end point.
 -/
 import RateslibModel.Proofs.BSplinePoU
 import RateslibModel.Proofs.BSplineDeriv
+import RateslibModel.Proofs.DualOps
+import RateslibModel.Analysis.Refine2
 namespace Rateslib
 open Finset
 
@@ -196,6 +198,31 @@ derivative recursions, wherever `x` is not a knot. -/
 theorem C14_one_piecewise_polynomial (t : List ℝ) (x : ℝ) (hx : ∀ j, j < t.length → knot t j ≠ x)
     (m k i : Nat) (hik : i + k < t.length) : genD (bL t) t x m k i = genD (bR t) t x m k i :=
   genD_bL_eq_bR t x hx m k i hik
+
+/-- A DUAL ABSCISSA on a single basis function (`bsplev_single_dual` is `m = 0`, `bspldnev_single_dual` any `m`):
+the value is the order-`m` output at the abscissa's value, the variables are the abscissa's, and the sensitivity
+to every name is the RIGHT derivative of the order-`m` output there times the abscissa's own sensitivity to that
+name — the chain rule, name by name, at every point strictly before the last knot. -/
+theorem C14_dual_abscissa_single (t : List ℝ) (hs : SortedKnots t) (x : Dual ℝ) (hw : x.WF)
+    (hx : x.real < knot t (t.length - 1)) (m k i : Nat) (hik : i + k < t.length) :
+    (bspldnevDual t x i k m).real = bspldnev t x.real m i k none ∧
+    (bspldnevDual t x i k m).WF ∧ (bspldnevDual t x i k m).vars = x.vars ∧
+    ∃ d, HasDerivWithinAt (fun y => bspldnev t y m i k none) d (Set.Ici x.real) x.real ∧
+      ∀ v, Dual.den (bspldnevDual t x i k m) v = d * Dual.den x v := by
+  refine ⟨rfl, ⟨hw.1, by simp [bspldnevDual, vscaleL, hw.2]⟩, rfl, _, 
+    C14_right_derivative t hs x.real hx m k i none hik, fun v => ?_⟩
+  exact Dual.den_scaleL x _ hw _ v
+
+/-- …and a SECOND-ORDER dual abscissa (`bsplev_single_dual2`, `bspldnev_single_dual2`): with `d₁`, `d₂` the right
+derivatives of the order-`m` and order-`(m+1)` outputs, the first-order sensitivities are `d₁·∂x` and the stored
+(half) second-order ones `d₁·½∂²x + ½d₂·∂x∂x`, by pair of names. -/
+theorem C14_dual2_abscissa_single (t : List ℝ) (hs : SortedKnots t) (x : Dual2 ℝ) (hw : x.WF)
+    (hx : x.real < knot t (t.length - 1)) (m k i : Nat) (hik : i + k < t.length) :
+    ∃ d1 d2, HasDerivWithinAt (fun y => bspldnev t y m i k none) d1 (Set.Ici x.real) x.real ∧
+      HasDerivWithinAt (fun y => bspldnev t y (m + 1) i k none) d2 (Set.Ici x.real) x.real ∧
+      ChainSpec x (bspldnevDual2 t x i k m) (bspldnev t x.real m i k none) d1 (half * d2) :=
+  ⟨_, _, C14_right_derivative t hs x.real hx m k i none hik,
+    C14_right_derivative t hs x.real hx (m + 1) k i none hik, cdf_shape_spec x hw _ _ _⟩
 
 /-! Non-vacuity: cubic splines on knots (0,0,0,0,1,3,3,3,3): sorted, 4-fold ends. -/
 def exKnots : List ℝ := [0, 0, 0, 0, 1, 3, 3, 3, 3]
